@@ -13,7 +13,25 @@ static int bp_sigmask(int how, const sigset_t *set, sigset_t *old)
 }
 #define pthread_sigmask(how, set, old) bp_sigmask(how, set, old)
 
+/* reader slots live in the library's arena and are reused by later threads: (re)name the calling
+ * thread's slot before it releases any lock, i.e. before another thread can scan it */
+static void bp_name_my_slot(void);
+static int bp_unlock(pthread_mutex_t *m)
+{
+	bp_name_my_slot();
+	return vrt_mutex_unlock(m);
+}
+#undef pthread_mutex_unlock
+#define pthread_mutex_unlock(m) bp_unlock(m)
+
 #include "urcu-bp.c"
+
+static void bp_name_my_slot(void)
+{
+	struct urcu_bp_reader *r = URCU_TLS(urcu_bp_reader);
+	if (r)
+		vrt_name(&r->ctr, sizeof(r->ctr), "reader%d.ctr", vrt_self());
+}
 
 #define MAXR 24
 #define MAXU 4
